@@ -4,7 +4,7 @@ open RgVerif RgVerif.Exit RgVerif.ExitSpec
 
 /-
 Requests
-  c15.run   (cfg MODE par quiet stats messages implicit matchesPossible setupOk) PARSE (items ITEM…)
+  c15.run   (cfg MODE par quiet stats messages implicit matchesPossible setupOk [configErr FLUSH]) PARSE (items ITEM…)
   c15.spec  (cfg …) (items ITEM…)        -- the contract applied to the whole list `all`
   c15.stats (cfg …) (items ITEM…)        -- the --stats summary: model S W | -   spec S W
   c15.guard (cfg …) (items ITEM…)        -- pipeHit of C15_pipe; kindIntact: --pre leaves the error kinds alone
@@ -34,15 +34,21 @@ def parseItem : Sx → Option (Bool × Item)
   | .list [.atom "pf", id, sr, wr] => do pure (true, .file (← id.nat?) (← parseSr sr) (← parseWr wr))
   | _ => none
 
+def parseCfg8 (mode par quiet stats msgs impl mp setup : Sx) : Option Cfg := do
+  let mode ← match mode with
+    | .atom "search" => some Mode.search
+    | .atom "files" => some Mode.files
+    | _ => none
+  pure { mode := mode, parallel := (← par.bool?), quiet := (← quiet.bool?), stats := (← stats.bool?),
+         messages := (← msgs.bool?), implicitPath := (← impl.bool?), matchesPossible := (← mp.bool?),
+         setupOk := (← setup.bool?) }
+
+/-- `(cfg … setupOk)` or `(cfg … setupOk CONFIGERR FLUSH)`, FLUSH = o | p | e. -/
 def parseCfg : Sx → Option Cfg
-  | .list [.atom "cfg", mode, par, quiet, stats, msgs, impl, mp, setup] => do
-    let mode ← match mode with
-      | .atom "search" => some Mode.search
-      | .atom "files" => some Mode.files
-      | _ => none
-    pure { mode := mode, parallel := (← par.bool?), quiet := (← quiet.bool?), stats := (← stats.bool?),
-           messages := (← msgs.bool?), implicitPath := (← impl.bool?), matchesPossible := (← mp.bool?),
-           setupOk := (← setup.bool?) }
+  | .list [.atom "cfg", mode, par, quiet, stats, msgs, impl, mp, setup] => parseCfg8 mode par quiet stats msgs impl mp setup
+  | .list [.atom "cfg", mode, par, quiet, stats, msgs, impl, mp, setup, ce, fl] => do
+    let c ← parseCfg8 mode par quiet stats msgs impl mp setup
+    pure { c with configErr := (← ce.bool?), flush := (← parseWr fl) }
   | _ => none
 
 def parseParse : Sx → Option Parse
@@ -60,6 +66,7 @@ def showDiag : Diag → String
   | .file id => s!"f:{id}"
   | .write id => s!"wr:{id}"
   | .nothingSearched => "ns"
+  | .config => "cfg"
   | .fatal => "fatal"
 
 def showList (xs : List String) : String :=
@@ -81,7 +88,7 @@ def handle (cmd : String) (args : List Sx) : String :=
       let all := raw.map (·.2)
       let m := specMatched c all
       let e := specErrored c all
-      s!"exit {specExit m e c.quiet} matched {b m} errored {b e} out {showList ((all.filterMap (okId c)).map toString)} diags {showList ((all.filterMap (diagOf c)).map showDiag)}"
+      s!"exit {specExitFull c all} matched {b m} errored {b e} out {showList ((all.filterMap (okId c)).map toString)} diags {showList ((all.filterMap (diagOf c)).map showDiag)}"
     | _, _ => "bad-op"
   | "c15.stats", [cfg, items] =>
     match parseCfg cfg, parseItems items with
